@@ -9,6 +9,7 @@ import (
 	"os"
 	"runtime"
 	"testing"
+	"testing/iotest"
 	"unicode/utf8"
 
 	"github.com/tonistiigi/fsutil/types"
@@ -394,6 +395,13 @@ type c20StreamCase struct {
 	// this many bytes long (around the 32 KiB pooled buffer, with and without the
 	// 4-byte frame prefix), sent with the process-wide buffer pool emptied
 	Boundary int `json:"boundary,omitempty"`
+	// EOFWithData: the reader hands out the last bytes together with io.EOF
+	EOFWithData bool `json:"eof_with_data,omitempty"`
+	// RecvReuse: the receiving side uses one Packet value, reset before every RecvMsg
+	// (as the library's own loops do); Unknown: the first frame additionally carries a
+	// field the schema does not know (a newer peer), appended by hand
+	RecvReuse bool `json:"recv_reuse,omitempty"`
+	Unknown   bool `json:"unknown,omitempty"`
 }
 
 type fragReader struct {
@@ -448,6 +456,11 @@ func genC20Stream(t *rapid.T) *c20StreamCase {
 	if rapid.IntRange(0, 3).Draw(t, "other") == 0 {
 		c.Other = rapid.SliceOfN(rapid.SampledFrom([]int{10, 32768, 40000, 70000}), 1, 5).Draw(t, "othersizes")
 		c.FreshPool = rapid.Bool().Draw(t, "freshpool")
+	}
+	c.EOFWithData = rapid.IntRange(0, 2).Draw(t, "eofwithdata") == 0
+	if rapid.IntRange(0, 2).Draw(t, "recvreuse") == 0 {
+		c.RecvReuse = true
+		c.Unknown = rapid.Bool().Draw(t, "unknown")
 	}
 	if rapid.IntRange(0, 5).Draw(t, "boundary") == 0 {
 		c.Boundary = rapid.IntRange(32768-9, 32768+5).Draw(t, "boundarysize")
@@ -528,7 +541,25 @@ func c20CheckStream(env *h.Env, c *c20StreamCase) error {
 	if splitsHeader {
 		env.Class("header-split")
 	}
-	fr := &fragReader{r: bytes.NewReader(wire.Bytes()), plan: c.Frag}
+	var frameLens []int
+	for _, p := range sent {
+		enc, _ := p.MarshalVT()
+		frameLens = append(frameLens, len(enc))
+	}
+	stream := wire.Bytes()
+	if c.Unknown {
+		// a frame written by a peer that knows one more field (number 15, varint)
+		up := &types.Packet{Type: types.PACKET_DATA, ID: 5, Data: []byte("from a newer peer")}
+		enc, _ := up.MarshalVT()
+		enc = append(enc, 0x78, 0x01)
+		var hd [4]byte
+		binary.BigEndian.PutUint32(hd[:], uint32(len(enc)))
+		stream = append(append(append([]byte{}, hd[:]...), enc...), stream...)
+		sent = append([]*types.Packet{up}, sent...)
+		frameLens = append([]int{len(enc)}, frameLens...)
+		env.Class("frame-with-an-unknown-field")
+	}
+	fr := &fragReader{r: bytes.NewReader(stream), plan: c.Frag}
 	// a second, independent stream whose frames are received between the fragments of this one
 	var otherSent, otherGot []*types.Packet
 	if len(c.Other) > 0 {
@@ -567,16 +598,33 @@ func c20CheckStream(env *h.Env, c *c20StreamCase) error {
 		}
 		defer func() { fr.between = nil }()
 	}
-	rs := util.NewProtoStream(context.Background(), fr, nil)
+	var rd io.Reader = fr
+	if c.EOFWithData {
+		rd = iotest.DataErrReader(fr)
+		env.Class("reader-returns-eof-with-data")
+	}
+	rs := util.NewProtoStream(context.Background(), rd, nil)
 	var got []*types.Packet
+	reused := &types.Packet{}
 	for i := 0; ; i++ {
 		p := &types.Packet{}
+		if c.RecvReuse {
+			p = reused
+			p.ResetVT()
+		}
 		err := rs.RecvMsg(p)
 		if err == io.EOF {
 			break
 		}
 		if err != nil {
 			return fmt.Errorf("RecvMsg #%d: %v", i, err)
+		}
+		if c.RecvReuse {
+			// what one RecvMsg leaves in the value is that frame and nothing else
+			if i < len(frameLens) && p.SizeVT() != frameLens[i] {
+				return fmt.Errorf("RecvMsg #%d into a reset Packet value: the value re-encodes to %d bytes, the frame had %d (something of an earlier packet is still in it)", i, p.SizeVT(), frameLens[i])
+			}
+			p = p.CloneVT()
 		}
 		got = append(got, p)
 		if len(got) > len(sent)+2 {
